@@ -1545,6 +1545,11 @@ package asm
 //@ define TILES_E(a) ((len(a.lines) > 0 ==> a.lines[0].address == a.base && a.lines[len(a.lines)-1].address+uint32(BC(a, len(a.lines)-1)) == a.address) && (len(a.lines) == 0 ==> a.n == 0))
 //@ define TILES(a) (TILES_A(a) && TILES_L(a) && TILES_C(a) && TILES_E(a))
 
+//@ define HEXTOK(xb, j, v) (xb[6*j] == 48 && xb[6*j+1] == 120 && xb[6*j+2] == hextable[v>>4&15] && xb[6*j+3] == hextable[v&15] && xb[6*j+4] == 44 && (j > 0 ==> xb[6*j-1] == 32))
+
+// WriteHexTo: one Write per record. A record without bytes is written as a "//" comment line; an instruction or data
+// record is written as exactly its bytes code[off : off+byteCount], in order, as "0xHH," tokens separated by one
+// space; an instruction line continues with blanks up to a "//" comment at column 24, a data line ends there.
 //@ func (*Emitter).WriteHexTo
 //@   property C15
 //@   requires TILES(a)
@@ -1552,8 +1557,17 @@ package asm
 //@   assigns nothing
 //@   loop 1 invariant true
 //@   loop 1 modifies line
-//@   loop 2 invariant true
+//@   loop 2 invariant len(xb) == ite(rangeindex < 0, 0, 6*(rangeindex+1)-1)
+//@   loop 2 invariant all(j, int, 0 <= j && j <= rangeindex ==> xb[6*j] == 48 && xb[6*j+1] == 120 && xb[6*j+4] == 44 && (j > 0 ==> xb[6*j-1] == 32))
+//@   loop 2 invariant all(j, int, 0 <= j && j <= rangeindex ==> xb[6*j+2] == hextable[d[j]>>4&15])
+//@   loop 2 invariant all(j, int, 0 <= j && j <= rangeindex ==> xb[6*j+3] == hextable[d[j]&15])
 //@   loop 2 modifies oa, xb
+//@   at invoke:Write:1 assert line == a.lines[rangeindex1+1]
+//@   at invoke:Write:1 assert len(xb) >= 1 && xb[len(xb)-1] == 10
+//@   at invoke:Write:1 assert int(line.asmLineType) == 6 || int(line.asmLineType) >= 8 ==> xb[0] == 47 && xb[1] == 47
+//@   at invoke:Write:1 assert int(line.asmLineType) <= 5 || int(line.asmLineType) == 7 ==> all(j, int, 0 <= j && j < line.byteCount ==> HEXTOK(xb, j, a.code[int(line.address-a.base)+j]))
+//@   at invoke:Write:1 assert int(line.asmLineType) <= 5 ==> xb[24] == 47 && xb[25] == 47 && all(j, int, 6*line.byteCount-1 <= j && j < 24 ==> xb[j] == 32)
+//@   at invoke:Write:1 assert int(line.asmLineType) == 7 ==> len(xb) == 6*line.byteCount
 
 //@ func (*Emitter).WriteTextTo
 //@   property C15
